@@ -15,6 +15,7 @@ mod c15;
 mod c16;
 mod c17;
 mod c18;
+mod c19;
 
 use common::ev::{Ctx, Report, Tier};
 use std::time::Instant;
@@ -39,6 +40,7 @@ fn table() -> Vec<(&'static str, RunFn, ReplayFn)> {
         ("C16", c16::run as RunFn, c16::replay as ReplayFn),
         ("C17", c17::run as RunFn, c17::replay as ReplayFn),
         ("C18", c18::run as RunFn, c18::replay as ReplayFn),
+        ("C19", c19::run as RunFn, c19::replay as ReplayFn),
     ]
 }
 
